@@ -35,26 +35,25 @@ def toHex2 (b : Nat) : String :=
 
 def bytesHex (bs : Array Nat) : String := bs.foldl (fun s b => s ++ toHex2 b) ""
 
-/-- 64-bit FNV-1a over bytes (same constants as the harness) -/
+/-- 64-bit FNV-1a over bytes (same constants as the harness); `UInt64` arithmetic wraps natively -/
 def fnv64 (bs : Array Nat) : Nat :=
-  bs.foldl (fun h b => ((h ^^^ (b % 256)) * 0x100000001b3) % 0x10000000000000000) 0xcbf29ce484222325
+  (bs.foldl (fun (h : UInt64) b => (h ^^^ (UInt64.ofNat (b % 256))) * 0x100000001b3) (0xcbf29ce484222325 : UInt64)).toNat
 
 /-- xorshift64* shared with the harness: next state and output -/
-def xs64 (s : Nat) : Nat × Nat :=
-  let m := 0x10000000000000000
+def xs64 (s : UInt64) : UInt64 × UInt64 :=
   let s := s ^^^ (s >>> 12)
-  let s := (s ^^^ (s <<< 25)) % m
+  let s := s ^^^ (s <<< 25)
   let s := s ^^^ (s >>> 27)
-  (s, (s * 0x2545F4914F6CDD1D) % m)
+  (s, s * 0x2545F4914F6CDD1D)
 
 /-- `len` pseudo-random bytes from `seed` (high byte of each output) -/
 def prBytes (seed len : Nat) : Array Nat := Id.run do
-  let mut s := if seed % 0x10000000000000000 = 0 then 0x9E3779B97F4A7C15 else seed % 0x10000000000000000
+  let mut s : UInt64 := if seed % 0x10000000000000000 = 0 then 0x9E3779B97F4A7C15 else UInt64.ofNat (seed % 0x10000000000000000)
   let mut out : Array Nat := Array.mkEmpty len
   for _ in [0:len] do
     let (s', o) := xs64 s
     s := s'
-    out := out.push (o >>> 56)
+    out := out.push (o >>> 56).toNat
   return out
 
 end Autd3.Drv
